@@ -90,7 +90,11 @@ def structured_cells(hashseeds=(0, 1, 2, 3, 4, 5, 6, 7), threads=(1, 2, 3, 16)):
     for w in threads[1:]:
         for pol in ("serial", "spread", "random"):
             cells.append(dict(g, threads=w, sched={"policy": pol, "seed": w}, note="threads"))
+    for sd in (11, 12, 13):
+        cells.append(dict(g, threads=2, sched={"policy": "random", "seed": sd}, note="threads"))
+    cells.append(dict(g, threads=2, sched={"policy": "rr", "seed": 1}, note="threads"))
     cells.append(dict(g, high_memory=True, note="high_memory"))
+    cells.append(dict(g, high_memory=True, threads=2, sched={"policy": "spread", "seed": 2}, note="high_memory"))
     cells.append(dict(g, keep_tmp=True, note="keep_tmp"))
     cells.append(dict(g, bufsize=64, note="bufsize"))
     cells.append(dict(g, hashseed=hashseeds[-1], threads=3, high_memory=True, sched={"policy": "pct", "seed": 5},
